@@ -3,6 +3,7 @@ import os
 import re
 import shutil
 import subprocess
+import sys
 import tempfile
 
 from . import common
@@ -75,17 +76,27 @@ def run(cwd, module, cfg=None, workers=None, timeout=600, env=None, args=(), hea
     e.pop('JAVA_TOOL_OPTIONS', None)
     if env:
         e.update(env)
-    try:
-        p = subprocess.run(cmd, cwd=cwd, env=e, timeout=timeout, stdout=subprocess.PIPE,
-                           stderr=subprocess.STDOUT, universal_newlines=True, errors='replace')
-    except subprocess.TimeoutExpired as ex:
-        out = ex.stdout or ''
-        if isinstance(out, bytes):
-            out = out.decode('utf-8', 'replace')
-        raise common.MachineryError('TLC timed out after %ss on %s\n%s' % (timeout, module, out[-2000:]))
-    finally:
+    import time
+    for attempt in range(3):
+        try:
+            p = subprocess.run(cmd, cwd=cwd, env=e, timeout=timeout, stdout=subprocess.PIPE,
+                               stderr=subprocess.STDOUT, universal_newlines=True, errors='replace')
+        except subprocess.TimeoutExpired as ex:
+            out = ex.stdout or ''
+            if isinstance(out, bytes):
+                out = out.decode('utf-8', 'replace')
+            shutil.rmtree(meta, ignore_errors=True)
+            raise common.MachineryError('TLC timed out after %ss on %s\n%s' % (timeout, module, out[-2000:]))
         shutil.rmtree(meta, ignore_errors=True)
-    return TlcResult(p.returncode, p.stdout)
+        r = TlcResult(p.returncode, p.stdout)
+        # a JVM that died without a verdict (killed under memory pressure, could not start) is run again;
+        # every verdict of TLC itself - success or an "Error:" - is final
+        if r.completed or r.errors() or 'No error has been found' in r.out:
+            return r
+        sys.stderr.write('TLC ended without a verdict (exit %s) on %s, attempt %d: %s\n' % (p.returncode, module, attempt + 1,
+                                                                                      p.stdout[-300:].replace('\n', ' | ')))
+        time.sleep(3 + 5 * attempt)
+    return r
 
 
 def check_model(cwd, module, cfg, must_cover=(), args=(), **kw):
